@@ -6,4 +6,5 @@ command -v python3-vt >/dev/null
 python3-vt -c "import z3; print('z3', z3.get_version_string())"
 rustup +nightly which rustc >/dev/null
 cargo --version
+cargo kani --version
 python3-vt -m mirsym.selftest
